@@ -19,6 +19,7 @@
    8. match: CheckFields on the first parse. *)
 From Verif Require Import Lib.Bytes Json.Ast Json.Print Event.Redact.
 From Verif Require Import Gen.GenStrip Gen.GenVersions.
+From Verif Require Ident.Ids.
 Open Scope N_scope.
 
 Definition untrusted_field : bytes := bs "newEventFromUntrustedJSONFunc".
@@ -123,6 +124,10 @@ Definition id_ok (sigil : N) (id : bytes) : bool :=
   (blen id <=? 255).
 
 Definition pseudo_id_version : bytes := bs "org.matrix.msc4014".
+(* a room ID that spec.NewRoomID accepts (the parsers refuse any other since the repair of F9);
+   the grammar model is C17's *)
+Definition room_valid (room : bytes) : bool :=
+  match Ident.Ids.room_id_parse room with Some _ => true | None => false end.
 Definition create_type : bytes := bs "m.room.create".
 
 (* unmarshal into eventV1 / eventV2 / eventV3 plus the room ID check of the parser *)
@@ -137,17 +142,17 @@ Definition parse_checks (p : parser) (j : json) : bool :=
           | PV1 =>
               match str_field (bs "event_id") j with Some _ => true | None => false end &&
               arr_or_absent (bs "prev_events") j && arr_or_absent (bs "auth_events") j &&
-              id_ok 33 room
+              id_ok 33 room && room_valid room
           | PV2 =>
               match strs_field (bs "prev_events") j, strs_field (bs "auth_events") j with
               | Some _, Some _ => true | _, _ => false end &&
-              id_ok 33 room
+              id_ok 33 room && room_valid room
           | PV3 =>
               match strs_field (bs "prev_events") j, strs_field (bs "auth_events") j with
               | Some _, Some _ => true | _, _ => false end &&
               let is_create := bytes_eqb ty create_type &&
                                match sk with Some [] => true | _ => false end in
-              (is_create || match room with c :: _ => c =? 33 | [] => false end)
+              (is_create || (match room with c :: _ => c =? 33 | [] => false end && room_valid room))
           end
       | _, _, _, _, _ => false
       end
@@ -169,8 +174,11 @@ Definition check_fields (ver : bytes) (p : parser) (j : json) : bool :=
   | Some None => true
   | None => false
   end &&
-  (bytes_eqb ver pseudo_id_version ||
-   match str_field (bs "sender") j with Some s => id_ok 64 s | None => false end).
+  (* pseudo IDs have no sigil or domain, but the length limit applies to them too *)
+  match str_field (bs "sender") j with
+  | Some s => if bytes_eqb ver pseudo_id_version then blen s <=? 255 else id_ok 64 s
+  | None => false
+  end.
 
 Inductive uresult := UErr | UOk (redacted : bool) (j : json).
 
